@@ -68,6 +68,13 @@ func linearize(info *types.Info, body *ast.BlockStmt, e ast.Expr, atom func(ast.
 			if c, ok := b.constant(); ok {
 				return a.scale(c), true
 			}
+		case token.QUO:
+			// a quotient of two known values (multmin := limit / 32 with limit a local)
+			if x, ok := a.constant(); ok {
+				if y, ok := b.constant(); ok && y != 0 {
+					return lform{"": x / y}.clean(), true
+				}
+			}
 		}
 	}
 	return nil, false
